@@ -23,6 +23,10 @@ def bind {α β} (x : Outcome α) (f : α → Outcome β) : Outcome β :=
 instance : Monad Outcome where
   pure := ok
   bind := bind
+@[simp] theorem pure_eq {α} (a : α) : (pure a : Outcome α) = ok a := rfl
+@[simp] theorem ok_bind {α β} (a : α) (f : α → Outcome β) : (ok a >>= f) = f a := rfl
+@[simp] theorem err_bind {α β} (c : String) (f : α → Outcome β) : ((err c : Outcome α) >>= f) = err c := rfl
+@[simp] theorem panic_bind {α β} (s : String) (f : α → Outcome β) : ((panic s : Outcome α) >>= f) = panic s := rfl
 def cls {α} : Outcome α → String
   | ok _ => "ok" | err c => "err:" ++ c | panic _ => "panic"
 end Outcome
